@@ -5,7 +5,7 @@ import re, json, os
 DIRECTIVES = {
     'unit', 'serves', 'module', 'features', 'prelude', 'specs', 'flags', 'assumptions', 'item',
     'pre_attrs', 'requires', 'ensures', 'decreases', 'keep_fields', 'derives', 'loop', 'closure',
-    'params', 'cret', 'crequires', 'censures', 'adapter', 'bind', 'insert', 'wrap', 'carries', 'adapt', 'brk_type', 'nosentinel', 'note', 'carve',
+    'params', 'cret', 'crequires', 'censures', 'adapter', 'bind', 'insert', 'wrap', 'carries', 'adapt', 'brk_type', 'assumed_begin', 'assumed_end', 'sentinel_specs', 'nosentinel', 'note', 'carve',
 }
 
 _dir_re = re.compile(r'^\s*@([a-z_]+)\b(.*)$')
@@ -37,16 +37,24 @@ class Unit:
         self.items = []
         self.notes = []
         self.carves = []
+        self.sentinel_specs = None
 
 
 def parse(path):
     u = Unit(path)
     raw = []
     for ln in open(path).read().split('\n'):
-        m = re.match(r'^@include\s+(\S+)', ln)
+        m = re.match(r'^@include(_assumed)?\s+(\S+)', ln)
         if m:
-            inc = os.path.join(os.path.dirname(os.path.dirname(os.path.abspath(path))), m.group(1))
-            raw += open(inc).read().split('\n')
+            inc = os.path.join(os.path.dirname(os.path.dirname(os.path.abspath(path))), m.group(2))
+            if m.group(1):
+                # assume-guarantee: the included functions keep their contracts but their bodies are
+                # NOT re-verified here (they are verified in their own unit, which the same check runs)
+                raw.append('@assumed_begin ' + m.group(2))
+                raw += open(inc).read().split('\n')
+                raw.append('@assumed_end')
+            else:
+                raw += open(inc).read().split('\n')
         else:
             raw.append(ln)
     # tokenise into (directive, argline, blocklines)
@@ -63,8 +71,17 @@ def parse(path):
             cur[2].append(ln)
     item = None
     clos = None
+    assumed = None
+    u.assumed_from = []
     for d, arg, blk in toks:
         text = _block(blk)
+        if d == 'assumed_begin':
+            assumed = arg.strip()
+            u.assumed_from.append(assumed)
+            continue
+        if d == 'assumed_end':
+            assumed = None
+            continue
         if d == 'unit':
             u.name = arg
         elif d == 'serves':
@@ -78,6 +95,8 @@ def parse(path):
             u.prelude += arg.split()
         elif d == 'specs':
             u.specs += arg.split()
+        elif d == 'sentinel_specs':
+            u.sentinel_specs = arg.split()
         elif d == 'flags':
             u.flags += arg.split()
         elif d == 'assumptions':
@@ -89,6 +108,8 @@ def parse(path):
         elif d == 'item':
             parts = arg.split()
             item = {'path': parts[0], 'inserts': [], 'loops': {}, 'closures': {}, 'wraps': []}
+            if assumed:
+                item['assumed'] = assumed
             for kv in parts[1:]:
                 k, v = kv.split('=', 1)
                 if k == 'for_into_iter':
@@ -187,7 +208,13 @@ def contract_text(item, sentinel=False):
     return '\n'.join(parts)
 
 
+def _has_fn_contract(item):
+    return any(item.get(k) for k in ('requires', 'ensures', 'decreases', 'ret', 'loops', 'inserts', 'closures', 'wraps', 'adapts'))
+
+
 def is_fn_item(item):
+    if item.get('assumed'):
+        return False
     return any(item.get(k) for k in ('requires', 'ensures', 'decreases', 'ret', 'loops', 'inserts', 'closures', 'wraps', 'adapts')) and not item.get('keep_fields')
 
 
@@ -205,6 +232,8 @@ def job(u, sentinel=False):
         for k in (() if sent else ('as',)) + ('ret', 'for_to_loop', 'for_into_iter', 'impl_trait', 'bool_or_assign', 'expect_loops', 'expect_closures', 'keep_fields', 'derives', 'pre_attrs'):
             if k in it:
                 j[k] = it[k]
+        if it.get('assumed') and _has_fn_contract(it):
+            j['pre_attrs'] = '#[verifier::external_body]\n' + j.get('pre_attrs', '')
         c = contract_text(it, sent)
         if c:
             j['contract'] = c
